@@ -81,6 +81,44 @@ func main() {
 		})
 	}
 	fmt.Fprintf(&b, "/-- rules/standard/storage.go, NewStore: the value assigned to the SyncWrites option -/\ndef storeSyncWrites : Option String := %s\n\n", sync)
+	// every option of the badger store that NewStore sets (fields assigned on the options value, With… methods called on it)
+	var storeOpts []string
+	if fd := funcDecl(parse(filepath.Join(repo, "rules/standard/storage.go")), "NewStore"); fd != nil {
+		optVars := map[string]bool{}
+		ast.Inspect(fd, func(n ast.Node) bool {
+			if as, ok := n.(*ast.AssignStmt); ok {
+				for i, r := range as.Rhs {
+					if c, ok := r.(*ast.CallExpr); ok && i < len(as.Lhs) {
+						fn := src(c.Fun)
+						if strings.HasSuffix(fn, "badger.DefaultOptions") || strings.HasSuffix(fn, "badger.LSMOnlyOptions") {
+							optVars[src(as.Lhs[i])] = true
+						}
+					}
+				}
+			}
+			return true
+		})
+		seenOpt := map[string]bool{}
+		ast.Inspect(fd, func(n ast.Node) bool {
+			switch x := n.(type) {
+			case *ast.AssignStmt:
+				for _, l := range x.Lhs {
+					if se, ok := l.(*ast.SelectorExpr); ok && optVars[src(se.X)] && !seenOpt[se.Sel.Name] {
+						seenOpt[se.Sel.Name] = true
+						storeOpts = append(storeOpts, se.Sel.Name)
+					}
+				}
+			case *ast.CallExpr:
+				if se, ok := x.Fun.(*ast.SelectorExpr); ok && optVars[src(se.X)] && !seenOpt[se.Sel.Name+"()"] {
+					seenOpt[se.Sel.Name+"()"] = true
+					storeOpts = append(storeOpts, se.Sel.Name+"()")
+				}
+			}
+			return true
+		})
+		sort.Strings(storeOpts)
+	}
+	fmt.Fprintf(&b, "/-- NewStore: every badger option it sets -/\ndef storeOptionsSet : List String := %s\n\n", leanList(storeOpts))
 
 	// ---- services/api/grpc/service.go: TLS configuration, credentials, services, interceptors
 	svc := parse(filepath.Join(repo, "services/api/grpc/service.go"))
